@@ -28,17 +28,19 @@ Definition sched_del : list (N * choice) :=
     (0, COp (OpHeapDelete 1)); (0, CGo); (0, CGo); (0, CGo);            (* partial (empty), snapshot, xheap := heap 0 *)
     (0, CGo); (0, CGo) ].                                               (* spinning on DELAYED_FREEING *)
 
+Definition after (sched : list (N * choice)) (f : cfg -> bool) : bool :=
+  match run init sched with Some (Ok c) => f c | _ => false end.
+
 Example ex_delete_waits :
-  exists c, run init sched_del = Some (Ok c)
-    /\ pg_heap (getp c 0) = Some 0 /\ pg_flag (getp c 0) = Freeing
-    /\ th_stk (gett c 1) = [RF4 b10 1] /\ hp_alive (geth c 1) = true
-    /\ absorbing (th_stk (gett c 0)) 0 1 = true /\ inv_b c = true.
-Proof. vm_compute. eexists. repeat split. Qed.
+  after sched_del (fun c => oN_eqb (pg_heap (getp c 0)) (Some 0) && flag_eqb (pg_flag (getp c 0)) Freeing
+                            && match th_stk (gett c 1) with [RF4 b 1] => bid_eqb b b10 | _ => false end
+                            && hp_alive (geth c 1) && absorbing (th_stk (gett c 0)) 0 1 && inv_b c) = true.
+Proof. vm_compute. reflexivity. Qed.
 
 Example ex_delete_completes :
-  exists c, run init (sched_del ++ [ (1, CGo); (1, CGo); (1, CGo); (1, CGo) ]        (* push on heap 1, flag := NO_DELAYED *)
-                      ++ [ (0, CGo); (0, CGo); (0, CGo) ]                              (* spin ends: flag := USE; loop done *)
-                      ++ repeat (0, CGo) 12) = Some (Ok c)                             (* drain heap 1, free it *)
-    /\ hp_alive (geth c 1) = false /\ hp_del (geth c 1) = [] /\ th_stk (gett c 0) = []
-    /\ pg_alive (getp c 0) = false /\ inv_b c = true.
-Proof. vm_compute. eexists. repeat split. Qed.
+  after (sched_del ++ [ (1, CGo); (1, CGo); (1, CGo); (1, CGo) ]        (* push on heap 1, flag := NO_DELAYED *)
+                   ++ [ (0, CGo); (0, CGo); (0, CGo) ]                   (* spin ends: flag := USE; loop done *)
+                   ++ repeat (0, CGo) 12)                                (* drain heap 1, free it *)
+        (fun c => negb (hp_alive (geth c 1)) && isnil (hp_del (geth c 1)) && isnil (th_stk (gett c 0))
+                  && negb (pg_alive (getp c 0)) && inv_b c) = true.
+Proof. vm_compute. reflexivity. Qed.
